@@ -345,10 +345,11 @@ def execute(trace):
 def gen_source(rng, tier):
     fmt = rng.choice(sorted(FNAMES))
     n = rng.choice([1, 1, 2, 2, 3, 3, 4, 5, 8, 13, 50] if tier == "thorough" else [1, 2, 2, 3, 3, 4, 5, 8, 21])
-    objs = [gen.random_mol(rng, with_bonds=fmt in ("sdf", "mol2") and rng.random() < 0.8,
-                           with_charges=fmt == "mol2", pdb=fmt == "pdb", title=rng.random() < 0.8)
+    kind = rng.choice(["list", "gen", "iterobj", "gen_raise", "gen_fresh", "gen_fresh", "gen_reuse"])
+    same_natom = rng.randint(2, 6) if (kind == "gen_reuse" or rng.random() < 0.3) else None
+    objs = [gen.random_mol(rng, natom=same_natom, with_bonds=fmt in ("sdf", "mol2", "pdb") and rng.random() < 0.8,
+                           with_charges=fmt == "mol2", pdb=fmt == "pdb", title=rng.random() < 0.8 or kind == "gen_reuse")
             for _ in range(n)]
-    kind = rng.choice(["list", "gen", "iterobj", "gen_raise"])
     src = {"kind": "dumped_many", "fmt": fmt, "filename": FNAMES[fmt], "objs": objs, "iter_kind": kind,
            "knobs": {"buffer_size": rng.choice([1, 64, 8192]), "chunk_size": rng.choice([None, 64])}}
     if kind == "gen_raise":
